@@ -92,4 +92,49 @@ proof! {
 	}
 }
 
-pub const HARNESSES: &[(&str, fn())] = &[("c10c::compact_block_body_roundtrip", compact_block_body_roundtrip)];
+proof! {
+	[hash_mix, alloc] fn compact_block_body_read_counts() {
+		// reader side only (the round trip of shapes with an output or a kernel does not finish):
+		// a buffer announcing NOUT full outputs, NKERN full kernels and NIDS short ids, followed by
+		// arbitrary bytes of the matching length: whenever CompactBlockBody::read accepts it, each
+		// list has exactly its own announced count (every list read with ITS count, in the
+		// written order), and at v1 (fixed-size kernels) exactly the buffer is consumed
+		env::set_nrd_enabled(false);
+		let v = any_version();
+		let mut buf: [u8; LEN] = nd::any();
+		let mut i = 0;
+		while i < 24 {
+			buf[i] = 0;
+			i += 1;
+		}
+		buf[7] = NOUT as u8;
+		buf[15] = NKERN as u8;
+		buf[23] = NIDS as u8;
+		// outputs carry an empty range proof in this buffer layout (length field = 0)
+		i = 0;
+		while i < NOUT {
+			let at = 24 + 42 * i + 34;
+			let mut j = 0;
+			while j < 8 {
+				buf[at + j] = 0;
+				j += 1;
+			}
+			i += 1;
+		}
+		crate::env::alloc_limit(64 * LEN + 4096);
+		let mut src: &[u8] = &buf[..];
+		let r = ser::deserialize::<CompactBlockBody, _>(&mut src, v, DeserializationMode::default());
+		if let Ok(got) = &r {
+			check!(got.out_full.len() == NOUT, "full outputs are read with their own count");
+			check!(got.kern_full.len() == NKERN, "full kernels are read with their own count");
+			check!(got.kern_ids.len() == NIDS, "short ids are read with their own count");
+			if v.value() == 1 {
+				check!(src.is_empty(), "v1: exactly the announced content is consumed");
+			}
+			cover!(true, "some buffer of this shape decodes");
+		}
+		core::mem::forget(r);
+	}
+}
+
+pub const HARNESSES: &[(&str, fn())] = &[("c10c::compact_block_body_roundtrip", compact_block_body_roundtrip), ("c10c::compact_block_body_read_counts", compact_block_body_read_counts)];
